@@ -453,7 +453,10 @@ fn try_write_prelude_part<Body>(
 }
 
 fn do_write_send_line(line: (&Method, &str, Version), w: &mut Writer) -> bool {
-    w.try_write(|w| write!(w, "{} {} {:?}\r\n", line.0, line.1, line.2))
+    // An uri with an empty path and a query (http://host?query) has a path_and_query
+    // that starts with the `?`. The origin-form request target must start with a `/`.
+    let slash = if line.1.starts_with('?') { "/" } else { "" };
+    w.try_write(|w| write!(w, "{} {}{} {:?}\r\n", line.0, slash, line.1, line.2))
 }
 
 fn do_write_headers<'a, I>(headers: I, index: &mut usize, last_index: usize, w: &mut Writer)
